@@ -2,7 +2,7 @@
 EXTENDS RcuList, TraceBase
 VARIABLE l
 TInit == l = 1 /\ InitWith(<<>>) /\ TLCSet(1, 0)
-Skip == LifeKinds \cup {"blocked", "hreg", "hrel", "hrelb", "erasing", "erased", "pushed", "fin", "finend", "destroyed", "starved",
+Skip == LifeKinds \cup {"blocked", "hreg", "hrel", "hrelb", "erasing", "erased", "pushed", "fin", "finend", "destroyed", "starved", "soloyield",
                         "alloc", "construct", "destroy", "dealloc", "uaf"}
 TNext ==
     /\ l <= Len(Tr)
